@@ -148,6 +148,10 @@ func main() {
 			cs := cases(spec, sch, tier)
 			errs := 0
 			for i := from; i < len(cs); i++ {
+				if ux.Stop() {
+					res.Capped = true
+					break
+				}
 				ux.Progress(i)
 				if runCase(sch, spec, cs[i], i, tier, &res) {
 					errs++
